@@ -220,10 +220,16 @@ package kafka
 //@   option via cond.L
 //@   guards queue, closed
 
+// An open batch leaves its partition writer only by being handed to the queue (C08: every accepted message is scheduled
+// for sending without waiting for further writes; C07: it is queued at the moment it is detached, not later): every store
+// that replaces a non-nil currBatch replaces a batch that batchQueue.Put has already been called with.
+//@ type partitionWriter
+//@   fieldwrite currBatch requires was == nil || was == now || was.$queued
 //@ func (*batchQueue).Put
 //@   requires batch != nil
 //@   option noframe
-//@   modifies b.queue, b.closed, capacity(b.queue)
+//@   modifies b.queue, b.closed, capacity(b.queue), batch.$queued
+//@   trust-ensures batch.$queued
 //@   ensures result ==> len(b.queue) == atlock(len(b.queue)) + 1 && b.queue[len(b.queue) - 1] == batch
 //@   ensures result ==> (forall i :: 0 <= i && i < atlock(len(b.queue)) ==> b.queue[i] == atlock(b.queue[i]))
 //@   ensures !result ==> atlock(b.closed)
